@@ -725,16 +725,10 @@ impl<'a> UserModel<'a> {
             } else {
                 return Ok(());
             };
-        let (selected_row, selected_column, range, top_row, left_column) =
+        let (selected_row, selected_column, top_row, left_column) =
             if let Ok(worksheet) = self.model.workbook.worksheet(sheet) {
                 if let Some(view) = worksheet.views.get(&self.model.view_id) {
-                    (
-                        view.row,
-                        view.column,
-                        view.range,
-                        view.top_row,
-                        view.left_column,
-                    )
+                    (view.row, view.column, view.top_row, view.left_column)
                 } else {
                     return Ok(());
                 }
